@@ -39,7 +39,7 @@ INLINE = [
 # --------------------------------------------------------------------------
 # invariants over one step's worker state
 # --------------------------------------------------------------------------
-def I1(ws):
+def I1(ws: "InternalStepWorkerState"):
     """C01: capacity respected, slot ids in range and pairwise distinct"""
     n = ws.config.num_workers
     m = len(ws.in_progress)
@@ -50,12 +50,12 @@ def I1(ws):
     )
 
 
-def I2(ws):
+def I2(ws: "InternalStepWorkerState"):
     """C03(a): work conserving - queued events only while every worker slot is busy"""
     return implies(len(ws.queue) > 0, len(ws.in_progress) == ws.config.num_workers)
 
 
-def wf_ws(ws):
+def wf_ws(ws: "InternalStepWorkerState"):
     return ws.config.num_workers >= 1
 
 
@@ -106,7 +106,7 @@ class AddOrEnqueue:
             and same(result[0].event, event.event)
             and result[0].id == state.in_progress[m].worker_id
             and isinstance(result[1], CommandPublishEvent)
-            and isinstance(result[1].event, StepStateChanged)
+            and type_is(result[1].event, StepStateChanged)
             and result[1].event.step_state == StepState.RUNNING
             and result[1].event.name == step_name
             and result[1].event.worker_id == str_of_int(state.in_progress[m].worker_id)
@@ -118,7 +118,7 @@ class AddOrEnqueue:
             and same(state.queue[q], event)
             and len(result) == 1
             and isinstance(result[0], CommandPublishEvent)
-            and isinstance(result[0].event, StepStateChanged)
+            and type_is(result[0].event, StepStateChanged)
             and result[0].event.step_state == StepState.PREPARING
             and result[0].event.name == step_name
         )
@@ -167,7 +167,7 @@ EVENT_FIELDS = {
 # --------------------------------------------------------------------------
 # broker-level predicates
 # --------------------------------------------------------------------------
-def wf(state):
+def wf(state: "BrokerState"):
     """well-formed broker state: every configured step has a worker state, num_workers >= 1"""
     return (
         forall_keys(state.config.steps, lambda s: s in state.workers)
@@ -175,15 +175,15 @@ def wf(state):
     )
 
 
-def Inv1(state):
+def Inv1(state: "BrokerState"):
     return forall_keys(state.workers, lambda s: I1(state.workers[s]))
 
 
-def Inv2(state):
+def Inv2(state: "BrokerState"):
     return forall_keys(state.workers, lambda s: I2(state.workers[s]))
 
 
-def quiescent(state):
+def quiescent(state: "BrokerState"):
     return state.is_running and forall_keys(
         state.workers, lambda s: len(state.workers[s].queue) == 0 and len(state.workers[s].in_progress) == 0
     )
